@@ -928,7 +928,7 @@ func (w *World) hookReplay(fs *storage.VerifStore, op uint8, lsn, pg uint64, cel
 
 // BiasHeader raises the row-id and LSN counters in the header of a database
 // that was just created and is not open (file and shadow alike).
-func (w *World) BiasHeader(db string, key uint32, lsn uint64) error {
+func (w *World) BiasHeader(db string, key uint32, lsn uint64, off uint64) error {
 	path := filepath.Join("data", strings.ToLower(db), "tbl")
 	sh := w.files[path]
 	if sh == nil || len(sh.data) < 28 {
@@ -944,6 +944,17 @@ func (w *World) BiasHeader(db string, key uint32, lsn uint64) error {
 	if lsn > 0 {
 		for i := 0; i < 8; i++ {
 			hdr[20+i] = byte(lsn >> (8 * uint(i)))
+		}
+	}
+	if off > 0 {
+		var cur uint64
+		for i := 0; i < 8; i++ {
+			cur |= uint64(hdr[12+i]) << (8 * uint(i))
+		}
+		if off > cur {
+			for i := 0; i < 8; i++ {
+				hdr[12+i] = byte(off >> (8 * uint(i)))
+			}
 		}
 	}
 	f, err := os.OpenFile(path, os.O_WRONLY, 0644)
